@@ -352,3 +352,61 @@ M('c03-add-middleware-cors-scan-before-listing', 'C03', 'R6', 'falcon/app.py',
                 middleware = list(middleware)  # type: ignore[call-overload]
             except TypeError:
 """)
+
+# ---- preserving wave 2: the app flows are path-sensitive for pure control flags (try/else -> flag refactoring is
+#      silent: preserving/k2-c03-1); a flag that is set too early, or never cleared, must still be reported
+M2('c03-wsgi-dispatch-flag-set-before-routing', 'C03', 'R2', [
+    {'file': 'falcon/app.py', 'old': """        req_succeeded = False
+
+        try:
+            if req.method in self._META_METHODS:
+                raise HTTPBadRequest()
+""", 'new': """        req_succeeded = False
+        pre_dispatch_ok = False
+
+        try:
+            pre_dispatch_ok = True
+            if req.method in self._META_METHODS:
+                raise HTTPBadRequest()
+"""},
+    {'file': 'falcon/app.py', 'old': """        except Exception as ex:
+            if not self._handle_exception(req, resp, ex, params):
+                raise
+        else:
+            try:
+                # NOTE(kgriffs): If the request did not match any
+""", 'new': """        except Exception as ex:
+            if not self._handle_exception(req, resp, ex, params):
+                raise
+
+        if pre_dispatch_ok:
+            try:
+                # NOTE(kgriffs): If the request did not match any
+"""}], also=('C06', 'C20', 'C02', 'C04', 'C05'))
+M2('c03-wsgi-dispatch-flag-initialised-true', 'C03', 'R2', [
+    {'file': 'falcon/app.py', 'old': """        req_succeeded = False
+
+        try:
+            if req.method in self._META_METHODS:
+                raise HTTPBadRequest()
+""", 'new': """        req_succeeded = False
+        pre_dispatch_ok = True
+
+        try:
+            if req.method in self._META_METHODS:
+                raise HTTPBadRequest()
+"""},
+    {'file': 'falcon/app.py', 'old': """        except Exception as ex:
+            if not self._handle_exception(req, resp, ex, params):
+                raise
+        else:
+            try:
+                # NOTE(kgriffs): If the request did not match any
+""", 'new': """        except Exception as ex:
+            if not self._handle_exception(req, resp, ex, params):
+                raise
+
+        if pre_dispatch_ok:
+            try:
+                # NOTE(kgriffs): If the request did not match any
+"""}], also=('C06', 'C20', 'C02', 'C04', 'C05'))
